@@ -200,6 +200,28 @@ def match_known(v, known):
 
 # ----------------------------------------------------------------------------- evidence / result
 
+def run_tlaps(module, tag, timeout=300):
+    """TLAPS proof of an unbounded version of what TLC checks on bounded instances.  Informational: the result goes
+    into the evidence (notes.tlaps); it never decides a property about the CODE (the binding is the trace validation)."""
+    import subprocess, shutil, re
+    exe = shutil.which("tlapm")
+    if not exe:
+        return {"module": module, "status": "not run (tlapm not found)"}
+    cache = os.path.join(WORK, "tlaps_" + tag)
+    os.makedirs(cache, exist_ok=True)
+    t0 = time.time()
+    try:
+        r = subprocess.run(["timeout", str(timeout), exe, "--threads", "2", "--cache-dir", cache, "-I", SPEC, os.path.join(SPEC, module + ".tla")],
+                           stdout=subprocess.PIPE, stderr=subprocess.STDOUT, text=True, cwd=cache)
+        m = re.search(r"All (\d+) obligations? proved", r.stdout)
+        if m:
+            return {"module": module, "status": "proved", "obligations": int(m.group(1)), "wall_s": round(time.time() - t0, 1)}
+        tail = " ".join(r.stdout.strip().splitlines()[-3:])[:300]
+        return {"module": module, "status": "not proved", "detail": tail, "wall_s": round(time.time() - t0, 1)}
+    except Exception as e:
+        return {"module": module, "status": "not run (%s)" % e}
+
+
 class Result:
     def __init__(self, pid, tier, seed, level="model_checking"):
         self.pid, self.tier, self.seed, self.level = pid, tier, seed, level
